@@ -121,6 +121,27 @@ Proof.
 Qed.
 Print Assumptions C07_nsga3_size_refs.
 
+(* the niche-balance clause at the level of selNSGA3.  sel = positions (in the last front) of the
+   members niching selected; the association of position i of the last front is niches[sc+i];
+   o_counts = members of earlier fronts + selected last-front members, per niche *)
+Theorem C07_nsga3_balanced : forall (fronts : list (list nat)) (k R : nat) (niches : list nat) (dist : list Q) draws,
+  fronts <> [] -> NoDup (concat fronts) ->
+  length niches = length (concat fronts) -> Forall (fun c => c < R) niches ->
+  length (concat (removelast fronts)) < k <= length (concat fronts) ->
+  let o := nsga3_core q_ltb 0%Q fronts k R niches dist draws in
+  let sc := length (concat (removelast fronts)) in
+  let lastf := last fronts [] in
+  exists sel,
+    o_chosen o = concat (removelast fronts) ++ map (fun i => nth i lastf 0) sel /\
+    NoDup sel /\ (forall i, In i sel -> i < length lastf) /\ length sel = k - sc /\
+    (forall c, c < R -> nth c (o_counts o) 0 =
+                        count_occ_nat (firstn sc niches) c + length (filter (fun i => Nat.eqb (nth (sc + i) niches 0) c) sel)) /\
+    (forall a b, (exists i, In i sel /\ nth (sc + i) niches 0 = a) ->
+                 (exists i, i < length lastf /\ ~ In i sel /\ nth (sc + i) niches 0 = b) ->
+                 nth a (o_counts o) 0 <= nth b (o_counts o) 0 + 1).
+Proof. exact (nsga3_core_balanced q_ltb 0%Q). Qed.
+Print Assumptions C07_nsga3_balanced.
+
 (* relative to fronts_correct: if `fronts` are the leading fronts of the population for a ranking
    `rank`, no individual of a strictly better front than a selected one is left out *)
 Theorem C07_nsga3_front_priority : forall (pop : list nat) (rank : nat -> nat)
@@ -154,6 +175,13 @@ Theorem C07_associate_argmin : forall (refs : list (list Q)) (fn : list Q), refs
     (j' < j -> (perp_d2 q_ops fn (nth j refs []) < perp_d2 q_ops fn (nth j' refs []))%Q).
 Proof. exact associate_one_argmin. Qed.
 Print Assumptions C07_associate_argmin.
+
+(* the niche of candidate i is that argmin for its normalised fitness vector *)
+Theorem C07_associate_normalised : forall (eps : Q) fits refs best icpt i, i < length fits ->
+  nth i (associate q_ops eps fits refs best icpt) 0 =
+  associate_one q_ops refs (normalise q_ops eps (nth i fits []) best icpt).
+Proof. exact associate_nth. Qed.
+Print Assumptions C07_associate_normalised.
 
 (* ... where perp_d2 is the squared perpendicular distance: no point t*r of the reference line is
    closer to fn *)
